@@ -1,6 +1,6 @@
 (* Proofs/SchedTie.v -- C11: lemmas ABOUT THE GENERATED shape table
    Gen/MpShape.v (re-extracted from emg3d on every run). *)
-From Coq Require Import List Arith Bool String Ascii ZArith Lia Permutation.
+From Coq Require Import List Arith Bool String Ascii ZArith Lia Permutation DecimalString DecimalNat.
 From V Require Import Model.Sched Proofs.Sched Gen.MpShape.
 Import ListNotations.
 
@@ -65,21 +65,8 @@ Proof.
 Qed.
 
 (* ---- file names ---- *)
-Definition fname (what src freq : string) : string := render fname_pattern what src freq.
-
-Lemma fname_is what src freq :
-  fname what src freq
-  = String.append what (String.append "_" (String.append src
-      (String.append "_" (String.append freq ".h5")))).
-Proof.
-  unfold fname.
-  assert (E : fname_pattern = [PWhat; PLit "_"; PSource; PLit "_"; PFrequency; PLit ".h5"])
-    by (vm_compute; reflexivity).
-  rewrite E. cbn [render]. 
-  assert (A : forall s, String.append s EmptyString = s).
-  { induction s as [|c s IH]; cbn; [reflexivity|now rewrite IH]. }
-  now rewrite A.
-Qed.
+Lemma append_nil_r s : String.append s EmptyString = s.
+Proof. induction s as [|c s IH]; cbn; [reflexivity|now rewrite IH]. Qed.
 
 Lemma append_inj_l a x y : String.append a x = String.append a y -> x = y.
 Proof. induction a as [|c a IH]; cbn; [auto|]. intros H. inversion H. auto. Qed.
@@ -111,21 +98,110 @@ Proof.
     destruct (IH s2 r1 r2 H1 H2) as [-> ->]; auto.
 Qed.
 
-Lemma fname_injective_lemma what s1 f1 s2 f2 :
-  has_us s1 = false -> has_us s2 = false ->
-  fname what s1 f1 = fname what s2 f2 -> s1 = s2 /\ f1 = f2.
+(* decimal numerals: no '_' and injective *)
+Lemma dec_no_us n : has_us (dec n) = false.
 Proof.
-  intros H1 H2 H. rewrite !fname_is in H.
+  unfold dec. generalize (Nat.to_uint n). intros d.
+  induction d; cbn; auto.
+Qed.
+
+Lemma dec_inj n m : dec n = dec m -> n = m.
+Proof.
+  unfold dec. intros H.
+  apply (f_equal NilEmpty.uint_of_string) in H. rewrite !NilEmpty.usu in H.
+  inversion H as [H'].
+  apply (f_equal Nat.of_uint) in H'. now rewrite !DecimalNat.Unsigned.of_to in H'.
+Qed.
+
+Lemma index_of_inj k1 k2 l :
+  In k1 l -> In k2 l -> index_of k1 l = index_of k2 l -> k1 = k2.
+Proof.
+  induction l as [|x l IH]; intros H1 H2 H; [contradiction|]. cbn in H.
+  destruct (String.eqb_spec x k1) as [E1|E1], (String.eqb_spec x k2) as [E2|E2];
+    try congruence; try discriminate.
+  injection H as H. destruct H1 as [?|H1]; [congruence|]. destruct H2 as [?|H2]; [congruence|].
+  now apply IH.
+Qed.
+
+(* ---- the UNFIXED variant (emg3d before the fix): keys joined with '_' ---- *)
+Definition fname_unfixed (what src freq : string) : string :=
+  render fname_unfixed_pattern what src freq 0 0.
+
+Lemma fname_unfixed_is what src freq :
+  fname_unfixed what src freq
+  = String.append what (String.append "_" (String.append src
+      (String.append "_" (String.append freq ".h5")))).
+Proof. unfold fname_unfixed, fname_unfixed_pattern. cbn [render]. now rewrite append_nil_r. Qed.
+
+Lemma fname_unfixed_injective_lemma what s1 f1 s2 f2 :
+  has_us s1 = false -> has_us s2 = false ->
+  fname_unfixed what s1 f1 = fname_unfixed what s2 f2 -> s1 = s2 /\ f1 = f2.
+Proof.
+  intros H1 H2 H. rewrite !fname_unfixed_is in H.
   apply append_inj_l in H. cbn [String.append] in H. inversion H as [H'].
   change (String.append "_" ?x) with (String "_"%char x) in H'.
   destruct (split_at_us _ _ _ _ H1 H2 H') as [-> Hr]. split; [reflexivity|].
   now apply append_inj_r in Hr.
 Qed.
 
-Lemma fname_collision_lemma :
+Lemma fname_unfixed_collision_lemma :
   exists s1 f1 s2 f2 : string,
-    (s1, f1) <> (s2, f2) /\ fname "efield" s1 f1 = fname "efield" s2 f2.
+    (s1, f1) <> (s2, f2) /\ fname_unfixed "efield" s1 f1 = fname_unfixed "efield" s2 f2.
 Proof.
   exists "Tx"%string, "A_f1"%string, "Tx_A"%string, "f1"%string.
   split; [intros H; inversion H|vm_compute; reflexivity].
+Qed.
+
+(* ---- the CURRENT source: the extracted pattern is the fixed one ---- *)
+Lemma mpshape_fname_fixed : fname_pattern = fname_fixed_pattern.
+Proof. vm_compute. reflexivity. Qed.
+
+Definition fname (what : string) (sources freqs : list string) (k : string * string) : string :=
+  fname_of fname_pattern what sources freqs k.
+
+Lemma fname_is what sources freqs k :
+  fname what sources freqs k
+  = String.append what (String.append "_" (String.append (dec (index_of (fst k) sources))
+      (String.append "_" (String.append (dec (index_of (snd k) freqs)) ".h5")))).
+Proof.
+  unfold fname, fname_of. rewrite mpshape_fname_fixed. unfold fname_fixed_pattern.
+  cbn [render]. now rewrite append_nil_r.
+Qed.
+
+(* injective in (what, source, frequency) for ARBITRARY string keys of the survey *)
+Lemma fname_injective_lemma w1 w2 sources freqs k1 k2 :
+  has_us w1 = false -> has_us w2 = false ->
+  In (fst k1) sources -> In (fst k2) sources -> In (snd k1) freqs -> In (snd k2) freqs ->
+  fname w1 sources freqs k1 = fname w2 sources freqs k2 -> w1 = w2 /\ k1 = k2.
+Proof.
+  intros Hw1 Hw2 Hs1 Hs2 Hf1 Hf2 H. rewrite !fname_is in H.
+  cbn [String.append] in H.
+  change (String.append "_" ?x) with (String "_"%char x) in H.
+  destruct (split_at_us _ _ _ _ Hw1 Hw2 H) as [-> H1]. split; [reflexivity|].
+  change (String.append "_" ?x) with (String "_"%char x) in H1.
+  destruct (split_at_us _ _ _ _ (dec_no_us _) (dec_no_us _) H1) as [Hi Hr].
+  apply append_inj_r in Hr. apply dec_inj in Hi. apply dec_inj in Hr.
+  destruct k1 as [s1 f1], k2 as [s2 f2]. cbn in *.
+  f_equal; eapply index_of_inj; eassumption.
+Qed.
+
+Lemma nodup_map_inj {A B} (g : A -> B) (l : list A) :
+  NoDup l -> (forall x y, In x l -> In y l -> g x = g y -> x = y) -> NoDup (map g l).
+Proof.
+  induction 1 as [|a l Hnotin Hnd IH]; intros Hinj; cbn; constructor.
+  - intros Hin. apply in_map_iff in Hin. destruct Hin as [y [Hy Hiny]].
+    assert (y = a) by (apply Hinj; [now right|now left|exact Hy]). subst. contradiction.
+  - apply IH. intros x y Hx Hy. apply Hinj; now right.
+Qed.
+
+(* the hypothesis of file_mode_same holds for every survey *)
+Lemma fname_distinct_lemma what sources freqs :
+  has_us what = false -> NoDup sources -> NoDup freqs ->
+  NoDup (map (fname what sources freqs) (srcfreq sources freqs)).
+Proof.
+  intros Hw Hs Hf. apply nodup_map_inj; [now apply srcfreq_nodup_lemma|].
+  intros [s1 f1] [s2 f2] H1 H2 H.
+  apply srcfreq_complete_lemma in H1. apply srcfreq_complete_lemma in H2.
+  destruct H1, H2.
+  now destruct (fname_injective_lemma what what sources freqs (s1, f1) (s2, f2)) as [_ ?].
 Qed.
